@@ -60,7 +60,14 @@ namespace ikos {
 template <typename Number> void congruence<Number>::normalize(void) {
   // Set to standard form: 0 <= b < a for a != 0
   if (m_a != 0) {
+    if (m_a < 0) {
+      m_a = -m_a;
+    }
+    // the sign of the remainder of z_number follows the dividend
     m_b = m_b % m_a;
+    if (m_b < 0) {
+      m_b = m_b + m_a;
+    }
   }
 }
 
